@@ -110,6 +110,7 @@ type genResult struct {
 	fns      []string
 	vcs      map[string]*fnVC
 	toolErrs []string
+	missing  []string // contracts whose function does not exist in the tree
 	notes    map[string][]string
 	trusted  map[string]bool
 }
@@ -120,6 +121,13 @@ func (e *Engine) generate(keys []string, prop string, kinds string, dir string, 
 	os.MkdirAll(dir, 0o755)
 	for _, k := range keys {
 		con := e.spec.Contracts[k]
+		if e.fns[k] == nil {
+			// a contract whose function is not in the tree (removed or renamed, e.g. a deferred closure that was
+			// deleted): nothing can be generated for it; the functions that used it are still checked against their
+			// own contracts, which is where a broken property shows. Reported, never silently dropped.
+			g.missing = append(g.missing, con.Key)
+			continue
+		}
 		v, err := e.gen(k, "", verbose)
 		if err != nil {
 			g.toolErrs = append(g.toolErrs, err.Error())
@@ -241,8 +249,9 @@ func (e *Engine) generate(keys []string, prop string, kinds string, dir string, 
 func classifyDeadReturn(j *job, cfg solveCfg) string {
 	v := j.v
 	n := 0
-	satAt := func(b *ssa.BasicBlock, idx int) bool {
-		r := v.reach[b]
+	var satAtR func(b *ssa.BasicBlock, idx int, r T) bool
+	satAt := func(b *ssa.BasicBlock, idx int) bool { return satAtR(b, idx, v.reach[b]) }
+	satAtR = func(b *ssa.BasicBlock, idx int, r T) bool {
 		if r == "" {
 			return false
 		}
@@ -286,6 +295,9 @@ func classifyDeadReturn(j *job, cfg solveCfg) string {
 				continue
 			}
 			if and(v.reach[b], v.edgeCond(p, b)) == j.o.Reach {
+				if satAtR(b, v.entrySeq[b]+1, j.o.Reach) {
+					return "inside" // the edge is feasible on entry to b: the contradiction arises among b's own facts
+				}
 				if satAt(p, 1<<30) {
 					return "dead-branch"
 				}
@@ -406,6 +418,9 @@ func cmdCheck(args []string) int {
 		}
 		return 2
 	}
+	for _, m := range g.missing {
+		fmt.Printf("WARNING property=%s contract without function (skipped): %s\n", prop, m)
+	}
 	tLoad := time.Since(t0).Seconds()
 	cfg := solveCfg{t1: 4, t2: 20, seed: seed, par: 14}
 	if *tier == "thorough" {
@@ -421,6 +436,7 @@ func cmdCheck(args []string) int {
 	var known []string
 	var vacuous, deadPaths []string
 	var slow []string
+	var solverErrs []string
 	var samples []map[string]interface{}
 	replayDir := filepath.Join(*verif, "replays", prop)
 	for _, j := range g.jobs {
@@ -451,6 +467,11 @@ func cmdCheck(args []string) int {
 			}
 			continue
 		}
+		if j.status == "error" {
+			// every back end rejected the query text: a defect of the generator, never a verdict about the code
+			solverErrs = append(solverErrs, j.o.Name+": "+firstLines(j.out, 1))
+			continue
+		}
 		// not discharged
 		if f := ff.match(prop, j.o.Name); f != nil {
 			// known finding: the obligation restricted to the complement of the failing region must discharge
@@ -478,6 +499,12 @@ func cmdCheck(args []string) int {
 	for _, l := range violations {
 		fmt.Println(l)
 	}
+	if len(solverErrs) > 0 && len(violations) == 0 {
+		for _, n := range solverErrs {
+			fmt.Printf("TOOL-ERROR property=%s solver rejected the query: %s\n", prop, n)
+		}
+		return 2
+	}
 	if len(vacuous) > 0 && len(violations) == 0 {
 		for _, n := range vacuous {
 			fmt.Printf("TOOL-ERROR property=%s VACUOUS: the assumed facts on this return path are contradictory: %s\n", prop, n)
@@ -502,6 +529,9 @@ func cmdCheck(args []string) int {
 	trusted = append(trusted, "Go type checker + golang.org/x/tools/go/ssa v0.29.0 (SSA of /repo's working tree, rebuilt on this run)", "SMT solvers z3 5.1.0 (z3-new), z3 4.8.12, cvc5 1.0", "ucfgvc SSA->SMT translation (DESIGN.md section 3/4), GOARCH=amd64 (int = 64 bit)")
 	var assumptions []string
 	seenA := map[string]bool{}
+	for _, m := range g.missing {
+		assumptions = append(assumptions, m+": CONTRACT WITHOUT FUNCTION in this tree - no obligation generated for it")
+	}
 	for _, fn := range g.fns {
 		for _, n := range g.notes[fn] {
 			a := fn + ": " + n
